@@ -281,6 +281,8 @@ def _gen_case(rng, tier, g):
             'flaky': rng.random() < 0.2,
             'long': [rng.random() < 0.5 for _ in range(3)]
             if rng.random() < 0.3 else None,
+            'short': [rng.random() < 0.5 for _ in range(3)]
+            if rng.random() < 0.3 else None,
             # converters that succeed by returning an exception object
             'returns_exc': form in ('convert1', 'convert2', 'convertdict',
                                     'convertwhere', 'convertpassrow',
@@ -310,12 +312,25 @@ def _table(case, natural_fail=None):
             # a row longer than the header: convert carries the surplus
             # cells over unchanged
             row.append('surplus%d' % r)
+        if _is_short(case, r):
+            # a row that ends after field v: a mapping that refers to a
+            # field the row lacks sees None there, whatever errorvalue is
+            row = row[:2]
         rows.append(row)
     return rows
 
 
 LONG_FORMS = ('convert1', 'convert2', 'convertdict', 'convertwhere',
               'convertpassrow')
+
+
+SHORT_FORMS = ('fieldmap', 'fieldmapdict', 'fieldmapexpr')
+
+
+def _is_short(case, r):
+    short = case.get('short')
+    return bool(short) and case['form'] in SHORT_FORMS and \
+        short[r % len(short)]
 
 
 def _is_long(case, r):
@@ -473,7 +488,8 @@ def _model(case, fail, policy):
             cv = cellres(r, 'v', _cell(r * 10 + 1))
             if raised:
                 break
-            rows.append([r, cv, _cell(r * 10 + 2)])
+            rows.append([r, cv, None if _is_short(case, r)
+                         else _cell(r * 10 + 2)])
     elif form == 'fieldmap2':
         rows.append(['V', 'id', 'W'])
         for r in range(n):
@@ -558,6 +574,8 @@ def _natural_model(case, failcells, policy):
             rows.append([c])
         elif form == 'convertnumbers':
             rows.append([r, c, r * 10 + 2] + (['keep%d' % r] if x else []))
+        elif _is_short(case, r):
+            rows.append([r, c, None] + ([None] if x else []))
         else:
             rows.append([r, c, r * 10 + 2] + (['keep%d' % r] if x else []))
     return rows, raised
